@@ -348,6 +348,13 @@ def run_batches(cases, model_exe, routing, bindirs, workdir, tag, consume=None):
             with CONSUME_LOCK:
                 consume(parse_trace(base + ".model"), traces, parse_spec(base + ".spec"))
             traces = None
+            # the traces have been compared: keep the case shard (small), drop the traces (gigabytes in the thorough
+            # tier) unless asked to keep them
+            if not os.environ.get("VERIF_KEEP_WORK"):
+                import glob as _glob
+                for f in [base + ".model", base + ".spec"] + _glob.glob(base + ".r*.impl") + _glob.glob(base + ".r*.case"):
+                    try: os.remove(f)
+                    except OSError: pass
         return (job, r1.returncode, r1.stdout, traces, died)
     model, impl, crashed = {}, {}, []
     with ThreadPoolExecutor(max_workers=NPROC) as ex:
